@@ -14,7 +14,7 @@ from ..core import Prop, Workload, Violation
 def make_oracle(ctx, cfg, keys, stats):
     def oracle(f, model, i, op, outcome, before):
         where = f"after op {i} {op} -> {outcome[0]}"
-        for k in keys:
+        for k in ctx.alternating(keys):
             if model.present(k):
                 ctx.counters["oracle_evaluations"] += 1
                 got = f.check(k)
